@@ -245,6 +245,9 @@ def reuse(ctx, ex):
              (dict(step_ratio=Fr(2), step=2, order=2, num_terms=2), dict(step_ratio=Fr(4))),
              (dict(step_ratio=Poly.sym('r'), step=1, order=2, num_terms=1), dict(num_terms=2)),
              (dict(step_ratio=Poly.sym('r'), step=1, order=1, num_terms=2), dict(order=3))]
+    # .. and a call on a short sequence (fewer terms can be used) leaves nothing behind for the next, longer one
+    cases += [(dict(step_ratio=Poly.sym('r'), step=1, order=1, num_terms=2), {'short first sequence': 2}),
+              (dict(step_ratio=Fr(2), step=2, order=2, num_terms=3), {'short first sequence': 1})]
     for first, change in cases:
         label = 'Richardson(%s) ; use ; set %s ; use' % (', '.join('%s=%r' % kv for kv in sorted(first.items())),
                                                        ', '.join('%s=%r' % kv for kv in sorted(change.items())))
@@ -252,7 +255,9 @@ def reuse(ctx, ex):
             I, models, reg = make(ctx.repo)
             R = I.get_global('extrapolation', 'Richardson')
             obj = R(**first)
-            s0, h0 = seq_for(first['step_ratio'], first['order'], first['step'], 5)
+            change = dict(change)
+            n_first = change.pop('short first sequence', 5)
+            s0, h0 = seq_for(first['step_ratio'], first['order'], first['step'], n_first)
             I.getattr(obj, 'rule')()
             obj(s0, h0)
             final = dict(first)
